@@ -231,6 +231,11 @@ def run_case(case, ctx):
         # which can outweigh a chirp whose power is spread over many fine bins: it is not a candidate
         tot = tot.copy()
         tot[0, :] = 0.0
+    # one requantiser serves all channels of an antenna/polarisation: the mean it removes is estimated over all of
+    # them, so a slow tone in one channel leaves a constant offset (a spur in the centre bin) in the others. The
+    # tone itself is at least one fine bin away from every channel centre (strategy), so centre bins are no candidates
+    tot = tot.copy()
+    tot[:, L // 2] = 0.0
     ch_f, k_f = np.unravel_index(int(np.argmax(tot)), tot.shape)
     snr = float(tot.max() / max(np.median(tot[tot > 0]) if np.any(tot > 0) else 0.0, 1e-300))
     obs.nontrivial = snr >= 20 and (c['start_chan'] > 0 or not c['ascending'])
